@@ -15,6 +15,17 @@ let () =
     { model = "ok:" ^ fzs (calc_strides_cm s); spec = "-"; cls = "" });
   (* ltoi shape strides coords.  SPEC: accepted iff in the box (when the strides fit the shape),
      and then the offset is the dot product. *)
+  (* itol i shape strides.  SPEC (default strides, 0 <= i < size): the coordinate of rank i *)
+  register "itol" (fun a ->
+    let i = z_of_int (int_of_string a.(0)) and sh = zs a.(1) and st = zs a.(2) in
+    let m = (match itol i sh st with
+        | Ok (c, false) -> "ok:" ^ fzs c
+        | Ok (c, true) -> "err:" ^ fzs c
+        | Err -> "err" | Panic -> "panic") in
+    let n = int_of_z (size sh) in
+    let spec = if st = calc_strides sh && int_of_string a.(0) >= 0 && int_of_string a.(0) < n && sh <> []
+      then "ok:" ^ fzs (unrank sh i) else "-" in
+    { model = m; spec; cls = "" });
   register "ltoi" (fun a ->
     let sh = zs a.(0) and st = zs a.(1) and co = zs a.(2) in
     let m = res_str (fun v -> string_of_int (int_of_z v)) (ltoi sh st co) in
